@@ -595,7 +595,7 @@ impl SourceCache {
                 Listify::Auto,
             ),
             InputFormat::Toml => crate::serialize::toml_deser::from_str(pos_table, source, file_id)
-                .map(|v: NickelValue| v.with_pos_idx(pos_idx)),
+                .map(|v: NickelValue| crate::closurize::closurize_data(v).with_pos_idx(pos_idx)),
             #[cfg(feature = "nix-experimental")]
             InputFormat::Nix => {
                 let json = nix_ffi::eval_to_json(source, &self.get_base_dir_for_nix(file_id))
